@@ -11,6 +11,7 @@ from .model import resolve_addr, const_int
 
 
 NAMED = [False]   # print locals by their source names (for frozen tables) instead of SSA ids
+ROLES = [None]    # optional {('alloca'|'inst', id): role name} for the function being printed (role beats source name)
 
 
 class Lin(object):
@@ -74,7 +75,10 @@ def addr_str(f, op, depth=0, ld=99):
         s = (f.args[r[1]]["name"] if NAMED[0] and f.args[r[1]].get("name") else "a%d" % r[1])
     elif r[0] == "alloca":
         a_ = f.insts.get(r[1])
-        s = ("&" + a_.d["var"]) if (a_ is not None and a_.d.get("var") and NAMED[0]) else "alloca#%d" % r[1]
+        if NAMED[0] and ROLES[0] and ("alloca", r[1]) in ROLES[0]:
+            s = "&" + ROLES[0][("alloca", r[1])]
+        else:
+            s = ("&" + a_.d["var"]) if (a_ is not None and a_.d.get("var") and NAMED[0]) else "alloca#%d" % r[1]
     elif r[0] == "null":
         s = "null"
     else:
@@ -147,6 +151,8 @@ def lin(f, op, depth=0, ld=99):
                 else:
                     return Lin(0, {"gep#%d" % i.id: 1})
             return base
+        if NAMED[0] and ROLES[0] and ("inst", i.id) in ROLES[0]:
+            return Lin(0, {ROLES[0][("inst", i.id)]: 1})
         if NAMED[0] and o == "call" and i.callee:
             cs = "%s(%s)" % (i.callee, ",".join(repr(lin(f, a, depth + 1, ld)) for a in i.args))
             if ("#" not in cs and len(cs) < 60) or not i.d.get("var"):
